@@ -1,7 +1,7 @@
 (* Property C05 — serialization and persistence round trip.  Statements only; proofs in Proofs/. *)
 From PG Require Import Common.Tactics Model.Json Model.MemFS Model.MemSeq Proofs.JsonProofs Proofs.JsonStrProofs
   Proofs.MemFSPaths Proofs.MemFSTree Proofs.MemFSProofs Proofs.MemFSPure Proofs.MemSeqProofs
-  Model.JsonFields Gen.JsonFields Proofs.JsonFieldsProofs Proofs.JsonFieldsInstance Model.JsonText Proofs.JsonTextProofs.
+  Model.JsonFields Gen.JsonFields Proofs.JsonFieldsProofs Proofs.JsonFieldsInstance Model.JsonText Proofs.JsonTextProofs Model.JsonOpts Proofs.JsonOptsProofs.
 
 (* Object form: pg.from_json (pg.to_json v) is v, for every value outside the reserved encodings. *)
 Theorem C05_json_roundtrip : forall q ct v, no_quirks q -> ct_ok ct = true -> ser_ok ct v = true ->
@@ -229,3 +229,20 @@ Theorem C05_str_roundtrip_text_nofloat : forall fr fnz pf q ct v,
   of_str str (loads pf) q ct (to_str str (dumps fr fnz) v) = Ok v.
 Proof. exact text_roundtrip_nofloat. Qed.
 Print Assumptions C05_str_roundtrip_text_nofloat.
+
+(* ---- serialization options: hide_default_values / hide_frozen ------------------------------------------------ *)
+(* Whatever combination of the two options is used, a member that is left out is put back by the class on loading:
+   from_json (to_json v, options) = v for every value whose left-out members are exactly the class's defaults
+   (okx: a member Python-equal to its default is that default; frozen members hold their frozen value). *)
+Theorem C05_options_roundtrip : forall q o ctx v, ctx_ok ctx = true -> okx o ctx v ->
+  (q_empty_tuple q = false \/ no_empty_tuple v = true) ->
+  from_json_o q ctx (to_json_o o ctx v) = Ok v.
+Proof. exact options_roundtrip. Qed.
+Print Assumptions C05_options_roundtrip.
+
+(* base.eq is Python ==: True stored in a field whose default is 1 is left out and comes back as 1. *)
+Theorem C05_options_bool_for_int_refuted :
+  let v := PObj s_I [([120%N], PBool true); ([121%N], PStr [97%N])] in
+  from_json_o q_none ex_ctx (to_json_o o_all ex_ctx v) = Ok (fI (PInt 1)) /\ v <> fI (PInt 1).
+Proof. exact bool_for_int_default_refuted. Qed.
+Print Assumptions C05_options_bool_for_int_refuted.
